@@ -59,6 +59,9 @@ impl Check for New {
         context: &TypingContext,
         expected: &Ty,
     ) -> Result<Self, Error> {
+        // make sure the instance of the expected type exists before looking up its destructors
+        expected.check(&Some(self.span), symbol_table)?;
+
         let (name, type_args) = match expected {
             Ty::I64 { .. } => {
                 return Err(Error::ExpectedI64ForNew { span: self.span });
